@@ -20,7 +20,7 @@
 (*       or normalised Gamma(alpha_i, 1) draws, built from the crate's own *)
 (*       public Beta / Gamma; simplex structure; API agreement.            *)
 (***************************************************************************)
-EXTENDS Ord, Integers, Sequences
+EXTENDS Ord, Integers, Sequences, Limb14
 
 \* a float decomposed by the harness: [s |-> sign bit, e |-> exponent field, m |-> mantissa limbs, z |-> is zero,
 \*                                     n |-> exponent field is neither 0 nor all ones (normal number)]
@@ -66,4 +66,18 @@ SBParams(a) == [i \in 1..(Len(a) - 1) |-> <<a[i], TailSum(a, i + 1)>>]       \* 
 GNParams(a) == [i \in 1..Len(a) |-> <<a[i], 64>>]                              \* (alpha_i, scale 1)
 
 AllWithin(x, y, d) == Len(x) = Len(y) /\ \A i \in 1..Len(x) : Within(x[i], y[i], d)
+
+(* Michael-Schucany-Haas root selection of the inverse Gaussian, measured: for a fixed normal draw the uniform words that     *)
+(* return the first root x are a prefix of the word range with T elements; the documented probability is mu / (mu + x):      *)
+(*      | T (mu + x) - mu 2^64 |  <=  tol (mu + x) 2^64                                                                       *)
+(* in exact integers (mu, x as floor(v 2^40); tol = 2^-22 for f32: the 24-bit uniform; 2^-26 for f64: the 2^-40 fixed point   *)
+(* of x relative to mu >= 2^-10), and the other root is mu^2 / x (within 2 ordinals of the harness's two IEEE operations).   *)
+MshTolExp(ft) == IF ft = "f32" THEN 64 - 22 ELSE 64 - 26
+MshOK(e) == LET s == Add14(e.muq, e.xq)
+                lhs == Mul(e.T, s)
+                rhs == Mul(e.muq, Pow2(64))
+            IN  /\ e.words_same
+                /\ ~e.same_root =>                       \* v = 0: both roots are mu and T says nothing
+                     /\ Cmp(AbsDiff(lhs, rhs), Mul(s, Pow2(MshTolExp(e.ft)))) <= 0
+                     /\ Within(e.x1, e.other, 2)
 =============================================================================
